@@ -1037,18 +1037,14 @@ M("c15-flush-twice", "C15", "m3/thriftudp/transport.go",
 	}
 	p.writeBuf.Reset()""", expect="O3 flush")
 M("c15-multi-flush-first-only", "C15", "m3/thriftudp/multitransport.go",
-  """	for _, trans := range p.transports {
-		if err := trans.Flush(); err != nil {
-			return err
+  """		if err := trans.Flush(); err != nil && firstErr == nil {
+			firstErr = err
 		}
-	}
-	return nil""", """	for _, trans := range p.transports {
-		if err := trans.Flush(); err != nil {
-			return err
+	}""", """		if err := trans.Flush(); err != nil && firstErr == nil {
+			firstErr = err
 		}
 		break
-	}
-	return nil""", expect="O5 fan-out")
+	}""", expect="O5 fan-out")
 M("c15-multi-write-skips", "C15", "m3/thriftudp/multitransport.go",
   "	for _, trans := range p.transports {\n		written, err := trans.Write(buff)", "	for _, trans := range p.transports[1:] {\n		written, err := trans.Write(buff)", expect="O5 fan-out")
 M("c15-close-always", "C15", "m3/thriftudp/transport.go",
@@ -2154,7 +2150,7 @@ M("c03-scope-defaults-dropped", "C03", "scope.go",
 M("c15-multi-close-stops-after-first-success", "C15", "m3/thriftudp/multitransport.go",
   "		if err := trans.Close(); err != nil {", "		if err := trans.Close(); err == nil {", expect="O5 fan-out")
 M("c15-multi-flush-stops-after-first-success", "C15", "m3/thriftudp/multitransport.go",
-  "		if err := trans.Flush(); err != nil {", "		if err := trans.Flush(); !(err != nil) {", expect="O5 fan-out")
+  "		if err := trans.Flush(); err != nil && firstErr == nil {\n			firstErr = err\n		}", "		if err := trans.Flush(); err == nil {\n			return nil\n		} else if firstErr == nil {\n			firstErr = err\n		}", expect="O5 fan-out")
 M("c03-bucketpairs-single-bound-ignored", "C03", "histogram.go",
   "	if buckets == nil || buckets.Len() < 1 {\n		return []BucketPair{_singleBucket}", "	if buckets == nil || buckets.Len() <= 1 {\n		return []BucketPair{_singleBucket}", expect="pairs-default")
 M("c03-bucketpairs-empty-spec-panics", "C03", "histogram.go",
@@ -2205,3 +2201,9 @@ M("c17-gatherer-typed-nil", "C17", "prometheus/reporter.go",
 M("c16-readstring-aliases-buffer", "C16", "thirdparty/github.com/apache/thrift/lib/go/thrift/compact_protocol.go",
   "	return string(buf), NewTProtocolException(e)", "	return *(*string)(unsafe.Pointer(&buf)), NewTProtocolException(e)", expect="O8 decoded-payload-owned",
   more=[("thirdparty/github.com/apache/thrift/lib/go/thrift/compact_protocol.go", '	"math"\n', '	"math"\n	"unsafe"\n')])
+M("c15-multi-flush-returns-at-first-error", "C15", "m3/thriftudp/multitransport.go",
+  "		if err := trans.Flush(); err != nil && firstErr == nil {\n			firstErr = err\n		}", "		if err := trans.Flush(); err != nil {\n			return err\n		}", expect="O5 fan-out")
+M("c15-multi-flush-last-result-wins", "C15", "m3/thriftudp/multitransport.go",
+  "		if err := trans.Flush(); err != nil && firstErr == nil {\n			firstErr = err\n		}", "		firstErr = trans.Flush()", expect="O5 fan-out")
+M("c15-multi-flush-error-swallowed", "C15", "m3/thriftudp/multitransport.go",
+  "		if err := trans.Flush(); err != nil && firstErr == nil {\n			firstErr = err\n		}", "		_ = trans.Flush()", expect="O5 fan-out")
